@@ -28,9 +28,11 @@ VARIABLES table,    \* t -> object id of the current entry (only discovered targ
                     \*            target when the probe was started (0: the target was not discovered)]
           timers,   \* set of object ids with a retry pending
           fails,    \* failures so far (bounds the model)
+          info,     \* the scrape manager has client and settings of the targets' job (it skips a job whose
+                    \* HTTP client cannot be built, e.g. a missing CA file, until a reload repairs it)
           hist      \* sequence of events, for the history formulas and for export
 
-vars == <<table, st, nobj, queue, busy, timers, fails, hist>>
+vars == <<table, st, nobj, queue, busy, timers, fails, info, hist>>
 
 Ev(k, t, x) == [ev |-> k, t |-> t, x |-> x]
 Idle == [o |-> 0, under |-> 0]
@@ -38,7 +40,7 @@ H(e) == IF Record THEN Append(hist, e) ELSE hist
 
 Init ==
   /\ table = <<>> /\ st = <<>> /\ nobj = 0 /\ queue = <<>>
-  /\ busy = [w \in Workers |-> Idle] /\ timers = {} /\ fails = 0 /\ hist = <<>>
+  /\ busy = [w \in Workers |-> Idle] /\ timers = {} /\ fails = 0 /\ info = TRUE /\ hist = <<>>
 
 (* discovery update: the table becomes exactly S; entries of kept targets are kept *)
 Update(S) ==
@@ -51,7 +53,7 @@ Update(S) ==
                     ELSE [t |-> CHOOSE t \in new : ord[t] = o, exploring |-> FALSE, health |-> "unknown", probed |-> FALSE, est |-> 0]]
         /\ nobj' = nobj + Cardinality(new)
   /\ hist' = H(Ev("update", 0, S))
-  /\ UNCHANGED <<queue, busy, timers, fails>>
+  /\ UNCHANGED <<queue, busy, timers, fails, info>>
 
 (* the coordinator asks for the estimate: first lookup enqueues the entry *)
 Get(t) ==
@@ -60,19 +62,32 @@ Get(t) ==
      /\ IF st[o].exploring THEN UNCHANGED <<st, queue>>
         ELSE st' = [st EXCEPT ![o].exploring = TRUE] /\ queue' = Append(queue, o)
      /\ hist' = H(Ev("get", t, [health |-> st[o].health, est |-> st[o].est]))
-  /\ UNCHANGED <<table, nobj, busy, timers, fails>>
+  /\ UNCHANGED <<table, nobj, busy, timers, fails, info>>
 
-(* a worker takes the next entry; it sends the probe (unless the entry is stale and the code checks) *)
+(* a worker takes the next entry; it sends the probe - unless the entry is stale and the code checks, *)
+(* or the job's scrape info is missing: then the attempt fails at once, without a request            *)
 Dequeue(w) ==
   /\ busy[w].o = 0 /\ queue # <<>>
   /\ LET o == Head(queue)
          t == st[o].t
          cur == IF t \in DOMAIN table THEN table[t] ELSE 0
      IN IF ProbeChecksIdentity /\ cur # o
-          THEN busy' = busy /\ hist' = H(Ev("skip-stale", t, o))
-          ELSE busy' = [busy EXCEPT ![w] = [o |-> o, under |-> cur]] /\ hist' = H(Ev("probe-start", t, o))
+          THEN /\ hist' = H(Ev("skip-stale", t, o)) /\ UNCHANGED <<busy, st, timers, fails>>
+        ELSE IF ~info
+          THEN /\ fails < MaxFails
+               /\ st' = [st EXCEPT ![o].health = IF FailureMarksDown THEN "down" ELSE "up"]
+               /\ timers' = timers \cup {o} /\ fails' = fails + 1
+               /\ hist' = H(Ev("probe-noinfo", t, o)) /\ UNCHANGED busy
+        ELSE /\ busy' = [busy EXCEPT ![w] = [o |-> o, under |-> cur]]
+             /\ hist' = H(Ev("probe-start", t, o)) /\ UNCHANGED <<st, timers, fails>>
   /\ queue' = Tail(queue)
-  /\ UNCHANGED <<table, st, nobj, timers, fails>>
+  /\ UNCHANGED <<table, nobj, info>>
+
+(* a reload breaks / repairs the job's scrape info *)
+ToggleInfo ==
+  /\ info' = ~info
+  /\ hist' = H(Ev("info", 0, ~info))
+  /\ UNCHANGED <<table, st, nobj, queue, busy, timers, fails>>
 
 ProbeOK(w) ==
   /\ busy[w].o # 0
@@ -80,7 +95,7 @@ ProbeOK(w) ==
      /\ st' = [st EXCEPT ![o].health = "up", ![o].probed = TRUE, ![o].est = 1]
      /\ hist' = H(Ev("probe-ok", st[o].t, o))
   /\ busy' = [busy EXCEPT ![w] = Idle]
-  /\ UNCHANGED <<table, nobj, queue, timers, fails>>
+  /\ UNCHANGED <<table, nobj, queue, timers, fails, info>>
 
 ProbeFail(w) ==
   /\ busy[w].o # 0 /\ fails < MaxFails
@@ -89,7 +104,7 @@ ProbeFail(w) ==
      /\ timers' = timers \cup {o}
      /\ hist' = H(Ev("probe-fail", st[o].t, o))
   /\ busy' = [busy EXCEPT ![w] = Idle] /\ fails' = fails + 1
-  /\ UNCHANGED <<table, nobj, queue>>
+  /\ UNCHANGED <<table, nobj, queue, info>>
 
 (* the retry interval has passed *)
 TimerFire(o) ==
@@ -99,16 +114,19 @@ TimerFire(o) ==
          again == IF ProbeChecksIdentity THEN t \in DOMAIN table /\ table[t] = o ELSE t \in DOMAIN table
      IN queue' = IF again THEN Append(queue, o) ELSE queue
   /\ hist' = H(Ev("timer", st[o].t, o))
-  /\ UNCHANGED <<table, st, nobj, busy, fails>>
+  /\ UNCHANGED <<table, st, nobj, busy, fails, info>>
 
 Next ==
   \/ \E S \in SUBSET Targets : Update(S)
   \/ \E t \in Targets : Get(t)
   \/ \E w \in Workers : Dequeue(w) \/ ProbeOK(w) \/ ProbeFail(w)
   \/ \E o \in timers : TimerFire(o)
+  \/ ToggleInfo
 
 Spec == Init /\ [][Next]_vars
-Fair == Spec /\ WF_vars(\E w \in Workers : Dequeue(w)) /\ WF_vars(\E o \in timers : TimerFire(o))
+\* liveness is stated for a job whose scrape info stays available
+NextInfoOn == Next /\ info' = info
+Fair == Init /\ [][NextInfoOn]_vars /\ WF_vars(\E w \in Workers : Dequeue(w)) /\ WF_vars(\E o \in timers : TimerFire(o))
              /\ WF_vars(\E w \in Workers : ProbeOK(w))
 
 -----------------------------------------------------------------------------
